@@ -724,6 +724,26 @@ def gen():
                   "true" if orders.pop() == "BFS" else "false",
                   new_root["edge_resets"], new_root["face_resets"], new_root["cell_resets"]))
 
+    # ================= decorators: only the known, behaviour-neutral ones anywhere in the package (a caching / wrapping
+    # decorator on a constructor, compute, traverse or a property would change what the code below it means)
+    ALLOWED_DECOS = {"abstractmethod", "property", "forbidden_mesh_types(PointCloud)", "allowed_mesh_types(SurfaceMesh)",
+                     "allowed_mesh_types(VolumeMesh)"}
+    for rel in (BASE, EDGE, FACE, CELL):
+        s4, t4 = T.load(rel)
+        for node in ast.walk(t4):
+            if isinstance(node, (ast.FunctionDef, ast.AsyncFunctionDef, ast.ClassDef)):
+                for d in node.decorator_list:
+                    if isinstance(node, ast.ClassDef) or U(d) not in ALLOWED_DECOS:
+                        T.fail(rel, node, "unknown decorator @%s on %s" % (U(d), node.name))
+            if isinstance(node, ast.AsyncFunctionDef):
+                T.fail(rel, node, "async definition")
+    # default of traverse(order=...) of both base classes: a constant
+    for cls in ("SpanningTree", "SpanningForest"):
+        fn = T.find_def(T.load(BASE)[1], cls + ".traverse", BASE)
+        nms, dfl = params_of(fn)
+        expect(BASE, fn, nms == ["self", "order"] and isinstance(dfl["order"], ast.Constant) and dfl["order"].value == "BFS",
+               "%s.traverse(order='BFS') expected" % cls)
+
     # ================= __call__ of the two base classes: runs compute() (unconditionally) and returns the object
     src_b, tree_b = T.load(BASE)
     runs = []
